@@ -9,10 +9,13 @@ def main (args : List String) : IO UInt32 := do
   let mods := args.map (fun s => s.toName)
   let env ← importModules (mods.toArray.map (fun m => { module := m })) {} (loadExts := false)
   let mut bad : UInt32 := 0
-  for m in mods do
+  let allMods := env.header.moduleNames
+  let sel := allMods.filter (fun a => mods.any (fun m => m == a || m.isPrefixOf a))
+  for m in sel do
     match env.getModuleIdx? m with
     | none => IO.eprintln s!"module not found: {m}"; bad := 1
     | some idx =>
+      IO.println s!"MOD {m}"
       let names := env.header.moduleData[idx.toNat]!.constNames
       for n in names do
         if n.isInternal then continue
